@@ -1858,9 +1858,12 @@ class ArmV6:
 
     def execute_instruction(self, opcode):
         self.registers.changed_registers = [False] * 16
+        self.registers.itstate_restored = False
         self.executed_opcode = opcode
         if self.in_it_block():
             opcode.execute(self)
-            self.registers.it_advance()
+            # an exception return has written ITSTATE from the SPSR: that value is the interrupted program's, it is not advanced
+            if not self.registers.itstate_restored:
+                self.registers.it_advance()
         else:
             opcode.execute(self)
